@@ -60,6 +60,20 @@ class AssignMap(Model):
             return Native('dict.setdefault', setdefault)
         raise Unsupported('assignment dict method ' + name)
 
+    def m_restrict(self, it, n, elem, cnt):
+        """{x: self[x] for x in L}"""
+        i = it.ctx.fresh(I, 'irs')
+        it.ctx.check('restricted-keys-available', z3.Implies(z3.And(i >= 0, i < n), self.dom(elem(i))), {'witness': 'KeyError'})
+        val = self.val
+        return AssignMap(lambda l: cnt(l) > 0, lambda l: val(l))
+
+    def m_map_view(self, it, fv):
+        """[self[x] for x in L]: the sequence of values (every label must be a key)"""
+        i = it.ctx.fresh(I, 'imv')
+        it.ctx.check('listed-keys-available', z3.Implies(z3.And(i >= 0, i < fv.n), self.dom(fv.elem(i))), {'witness': 'KeyError'})
+        val = self.val
+        return SymSeq([], fv.n, lambda j: Sym(val(fv.elem(j))), 'list')
+
     def m_map_lookup(self, it, seq):
         """(self[x] for x in seq): all keys must be present (else KeyError) — one obligation, no fork"""
         i = it.ctx.fresh(I, 'ilk')
@@ -266,6 +280,13 @@ def add_c01(rep, pv, it):
     """both evaluation loops; VCs generated in forked children (35 s and 15 s of single-threaded symbolic execution)"""
     pv.start_child(EvaluateFull, _prepare)
     pv.start_child(lambda: EvaluateCircuit(), _prepare)
+    # public entry points against the contract of evaluate_circuit
+    for w in ('evaluate', 'evaluate_at'):
+        _prepare(it)
+        pv.run_contract(EvaluateEntry(w))
+    _prepare(it)
+    it.symbolic_enumerate = False
+    it.filter_views = False
 
 
 
@@ -646,3 +667,133 @@ class SoundStack(EvaluateCircuit):
         yield ('every-gate-has-a-value', z3.Implies(S0.dom(l), result.dom(l)))
         yield ('every-value-is-undefined-or-den-of-the-completion', z3.Implies(S0.dom(l), below(result.val(l), D(l))), {'witness': 'unsound-under-partial-assignment'})
         yield ('circuit-unchanged', z3.BoolVal(not [e for e in st['h'].events if e[0] in ('gate-write', 'gate-del')]))
+
+
+# =====================================================================================================================
+# C01 at the public entry points: Circuit.evaluate(inputs) and Circuit.evaluate_at(inputs, j) on an arbitrary well-formed
+# circuit with ARITY, for every Boolean input vector of the right length: the j-th returned value is den of the j-th
+# output, where den reads input number i from inputs[i]. evaluate_circuit is used through its CONTRACT (proved above:
+# C01/evaluate_circuit/*): for a total Boolean assignment of the inputs every requested output holds den.
+# Loop 1 (`for i, _input in enumerate(self._inputs): dict_inputs[_input] = inputs[i]`) by the closed form
+# "keys = the first k inputs, value of input number i = inputs[i]".
+# =====================================================================================================================
+class BuildAssignLoop:
+    def __init__(self, c):
+        self.c = c
+        self.pm = None
+
+    def applies(self, it, env, iterable):
+        return getattr(iterable, 'enumerated', None) is not None
+
+    def _setup(self, it, env):
+        if self.pm is not None:
+            return
+        S0 = self.c.S0
+        Ghostn[0] += 1
+        pm = z3.Function(f'pm_build!{Ghostn[0]}', I, LabelSort, B)
+        self.pm = pm
+        k, l = z3.Int('k!pb'), z3.Const('l!pb', LabelSort)
+        ctx = it.ctx
+        ctx.assume(z3.ForAll([l], z3.Not(pm(0, l))))
+        ctx.assume(z3.ForAll([k, l], z3.Implies(z3.And(k >= 0, k < S0.in_n), pm(k + 1, l) == z3.Or(pm(k, l), S0.in_elem(k) == l)), patterns=[pm(k + 1, l)]))
+        ctx.assume(z3.ForAll([l], pm(S0.in_n, l) == (S0.in_cnt(l) > 0)))
+        ctx.assume(z3.ForAll([k, l], z3.Implies(z3.And(k >= 0, k <= S0.in_n, pm(k, l)), z3.And(S0.in_cnt(l) > 0, self.c.inpos(l) < k)), patterns=[pm(k, l)]))
+
+    def closed(self, k):
+        c = self.c
+        return (lambda l: self.pm(k, l)), (lambda l: theory.state_of_bool(c.IV(c.inpos(l))))
+
+    def inv(self, it, env, k):
+        self._setup(it, env)
+        cur = env['dict_inputs']
+        d, v = self.closed(k)
+        l = it.ctx.fresh(LabelSort, 'lb')
+        if not isinstance(cur, AssignMap):
+            from ..pyvc.values import VDict
+            return [('starts-empty', z3.And(z3.BoolVal(isinstance(cur, VDict) and not cur.d), k == 0))]
+        return [('keys-are-the-first-k-inputs', cur.dom(l) == d(l)), ('input-i-gets-inputs[i]', z3.Implies(d(l), cur.val(l) == v(l)))]
+
+    def install(self, it, env, k):
+        self._setup(it, env)
+        d, v = self.closed(k)
+        env['dict_inputs'] = AssignMap(d, v)
+        # instance of the position lemma at the current element (hint): the k-th input sits at position k only
+        c = self.c
+        it.ctx.assume(z3.Implies(z3.And(k >= 0, k < c.S0.in_n), c.inpos(c.S0.in_elem(k)) == k))
+
+
+class EvaluateEntry(Contract):
+    relpath = CIRC
+
+    def __init__(self, which):
+        self.which = which                      # 'evaluate' | 'evaluate_at'
+        self.qualname = 'Circuit.' + which
+        self.name = which + '/any-circuit'
+
+    def setup(self, it, ctx):
+        c, h = CM.make_circuit(it, ctx, tag='c')
+        S0 = h.S
+        self.S0, self.h = S0, h
+        it.symbolic_enumerate = True
+        it.filter_views = True
+        l = z3.Const('L!ee', LabelSort)
+        i, j = z3.Ints('i!ee j!ee')
+        ctx.assume(z3.ForAll([l], z3.Implies(S0.dom(l), arity_pre(S0, l))))          # ARITY (W6)
+        ctx.assume(z3.ForAll([l], S0.rank(l) >= 0))
+        IVf = z3.Function('inputs_vector', I, B)
+        self.IV = lambda q: IVf(q)
+        # position of an input in the input list (representation facts; two equal positions would count >= 2, impossible by W4)
+        pf = z3.Function('inpos', LabelSort, I)
+        self.inpos = lambda q: pf(q)
+        ctx.assume(z3.ForAll([l], z3.Implies(S0.in_cnt(l) > 0, z3.And(pf(l) >= 0, pf(l) < S0.in_n, S0.in_elem(pf(l)) == l))))
+        ctx.assume(z3.ForAll([i], z3.Implies(z3.And(i >= 0, i < S0.in_n), pf(S0.in_elem(i)) == i)))           # (lean: two_positions_count + W4)
+        spec = den_spec(ctx, S0, lambda x: IVf(pf(x)), tag='De')
+        D = spec['D']
+        inputs = SymSeq([], S0.in_n, lambda q: Sym(IVf(q)), 'list')          # precondition: len(inputs) == number of inputs
+        it.loop_specs[(CIRC + '::Circuit.' + self.which, 1)] = BuildAssignLoop(self)
+        st = {'h': h, 'S0': S0, 'D': D}
+
+        def evaluate_circuit(it_, fv, args, kwargs):
+            """contract of Circuit.evaluate_circuit(assignment, outputs=None) proved as C01/evaluate_circuit/*"""
+            am = args[1] if len(args) > 1 else kwargs['assignment']
+            outs = kwargs.get('outputs')
+            c_ = it_.ctx
+            q = c_.fresh(LabelSort, 'lpre')
+            c_.check('evaluate_circuit/pre/assignment-total-boolean-on-the-inputs', z3.Implies(S0.in_cnt(q) > 0, z3.And(am.dom(q), am.val(q) != ST_U)))
+            c_.check('evaluate_circuit/pre/assignment-keys-are-inputs-or-foreign', z3.Implies(am.dom(q), z3.Or(S0.in_cnt(q) > 0, z3.Not(S0.dom(q)))))
+            c_.check('evaluate_circuit/pre/assignment-is-the-one-den-reads', z3.Implies(S0.in_cnt(q) > 0, (am.val(q) == ST_T) == IVf(pf(q))))
+            Ghostn[0] += 1
+            rd = z3.Function(f'resd!{Ghostn[0]}', LabelSort, B)
+            rv = z3.Function(f'resv!{Ghostn[0]}', LabelSort, StateSort)
+            x = z3.Const('x!ec', LabelSort)
+            c_.assume(z3.ForAll([x], z3.Implies(S0.dom(x), rd(x))))
+            if outs is None:
+                c_.assume(z3.ForAll([x], z3.Implies(S0.out_cnt(x) > 0, z3.And(rd(x), rv(x) == theory.state_of_bool(D(x))))))
+            else:
+                req = [it_.label_term(o) for o in it_.iterate(outs)]
+                for o in req:
+                    c_.check('evaluate_circuit/pre/requested-output-is-a-gate', S0.dom(o))
+                    c_.assume(z3.And(rd(o), rv(o) == theory.state_of_bool(D(o))))
+            return AssignMap(lambda y: rd(y), lambda y: rv(y))
+        it.contracts[CIRC + '::Circuit.evaluate_circuit'] = evaluate_circuit
+        if self.which == 'evaluate':
+            return [c, inputs], {}, st
+        jo = z3.Int('out_index')
+        ctx.assume(z3.And(jo >= 0, jo < S0.out_n))          # precondition: a valid output index
+        st['jo'] = jo
+        return [c, inputs, Sym(jo)], {}, st
+
+    def post(self, it, ctx, result, st):
+        S0, D = st['S0'], st['D']
+        if self.which == 'evaluate':
+            ok = isinstance(result, SymSeq)
+            yield ('returns-a-list', z3.BoolVal(ok))
+            if not ok:
+                return
+            j = ctx.fresh(I, 'jr')
+            yield ('one-value-per-output', result.n == S0.out_n)
+            e = result.elem(j)
+            yield ('value-j-is-den-of-output-j', z3.Implies(z3.And(j >= 0, j < S0.out_n), it.state_term(e) == theory.state_of_bool(D(S0.out_elem(j)))), {'witness': 'den'})
+        else:
+            yield ('value-is-den-of-the-output', it.state_term(result) == theory.state_of_bool(D(S0.out_elem(st['jo']))), {'witness': 'den'})
+        yield ('circuit-unchanged', z3.BoolVal(not [ev for ev in st['h'].events if ev[0] in ('gate-write', 'gate-del')]))
